@@ -31,8 +31,10 @@ def _build_model(kind):
     if kind in ("rules", "both"):
         rules = [("assignment", {"equation": "B = 2*A"}, "start"),
                  ("assignment", {"equation": "C = A + B + 1"}, "repeat")]
-    return Model(species=["A", "B", "C"], reactions=rxns, rules=rules,
-                 initial_condition_dict={"A": 3, "B": 1, "C": 0})
+    ic = {"A": 0, "B": 0, "C": 0} if kind == "inert" else {"A": 3, "B": 1, "C": 0}
+    if kind == "inert":
+        rxns.append((["A"], [], "massaction", {"k": 0.4}, "fixed", [], ["B"], {"delay": 0.7}))
+    return Model(species=["A", "B", "C"], reactions=rxns, rules=rules, initial_condition_dict=ic)
 
 
 def impl_run(job):
@@ -155,8 +157,8 @@ def run(tier):
     if r.violated:
         v.violation("spec:" + r.violated, "TLC refuted %s on Dispatch.tla" % r.violated, {"tlc_tail": r.stdout[-3000:]})
     recs = r.records
-    if len(recs) < 3000:
-        raise common.MachineryError("expected 3000 configurations from TLC, got %d" % len(recs))
+    if len(recs) < 3600:
+        raise common.MachineryError("expected 3600 configurations from TLC, got %d" % len(recs))
     seeds = [common.seed()] if tier == "quick" else [common.seed() + k for k in range(5)]
     jobs = [dict(rec, seed=s) for rec in recs for s in seeds]
     results = pool.run_jobs("c07", "impl_run", jobs)
